@@ -331,6 +331,7 @@ func (e *Env) clientOps(i int, tn string, c *cli, ops []string) {
 			e.where("")
 			e.rec.ev(tn, op, es(err))
 		case op == "H":
+			rr.CliRecvStarted++ // Header() may take a frame off the stream as well
 			e.where("client:Header")
 			md, err := c.stream.Header()
 			e.where("")
